@@ -41,6 +41,9 @@ def main():
     if parsed and parsed[1].split('.')[-1] in ('define_blockshape_3d', 'define_blockshape_2d'):
         print(json.dumps(replay_blockshape(parsed[1].split('.')[-1], model)))
         return
+    if parsed and parsed[0] == 'accessors.py':
+        print(json.dumps(replay_accessor(parsed[1], parsed[2], model), default=str))
+        return
     if parsed and parsed[1].split('.')[-1] == '_parse_coordinates':
         print(json.dumps(replay_axes_reader(model), default=str))
         return
@@ -143,6 +146,71 @@ def replay_blockshape(fn, model):
     if not valid(r, b):
         return {'reproduced': True, 'detail': f'{fn}({bits_v}, {tuple(bs)}) accepted the invalid setting {(r, b)}', 'case': {'bits_per_voxel': bits_v, 'blockshape': bs}}
     return {'reproduced': False, 'detail': f'accepted valid setting {(r, b)}'}
+
+
+def replay_accessor(qual, var, model):
+    """the subscript of the model on seismic_zfp.open(sgz) vs segyio.open(sgy) for a generated cube with the model's axis"""
+    import tempfile, shutil
+    import numpy as np
+    import segyio
+    import seismic_zfp
+    from oracle import segygen as G
+    from seismic_zfp.conversion import SegyConverter
+    n = min(max(ival(model, 'axis_length') or 5, 2), 12)
+    by_number = qual.startswith('SliceAccessor')
+    k0 = ival(model, 'first_line_number') or 1
+    inc = ival(model, 'line_increment') or 1
+    if abs(inc) > 50 or abs(k0) > 10 ** 6:
+        return {'reproduced': None, 'detail': 'axis of the model too large to materialise'}
+    def g(k):
+        v = model.get('subscript.' + k)
+        return None if v is None else int(v)
+    d = tempfile.mkdtemp(prefix='verif_acc_')
+    probs = []
+    try:
+        il = [k0 + j * inc for j in range(n)] if by_number else list(range(1, n + 1))
+        xl = [20, 21, 22]
+        rng = np.random.default_rng(0)
+        cube = rng.standard_normal((len(il), 3, 8)).astype(np.float32)
+        sgy, sgz = d + '/a.sgy', d + '/a.sgz'
+        G.write_segy(sgy, cube, il, xl)
+        with G.LibVersion('0.2.8'):
+            with SegyConverter(sgy) as c:
+                c.run(sgz, bits_per_voxel=16)
+        if 'int' in var:
+            subs = [int(model['subscript'])] if 'subscript' in model else []
+        else:
+            subs = [slice(g('start'), g('stop'), g('step'))]
+            # plus the neighbourhood of default combinations on this axis
+            lo, hi = min(il), max(il)
+            if by_number:
+                subs += [slice(None, None, None), slice(None, None, abs(inc) * 2 * (1 if inc > 0 else -1)), slice(lo, None, None), slice(None, hi, None),
+                         slice(None, None, -abs(inc)), slice(il[1], None, 2 * inc)]
+            else:
+                subs += [slice(None, None, -1), slice(None, None, -2), slice(3, None, -1), slice(-2, None, None), slice(None, -1, 2)]
+        with segyio.open(sgy) as s, seismic_zfp.open(sgz) as z:
+            for sub in subs:
+                def ev(f):
+                    acc = f.iline if by_number else f.depth_slice
+                    try:
+                        r = acc[sub]
+                        r = list(r) if isinstance(sub, slice) else [r]
+                        return ('ok', [tuple(np.asarray(x).shape) for x in r], [np.asarray(x) for x in r])
+                    except (IndexError, KeyError) as e:
+                        return ('rejected', None, None)
+                a, b = ev(s), ev(z)
+                if a[0] != b[0] or (a[0] == 'ok' and a[1] != b[1]):
+                    probs.append(f'{"iline" if by_number else "depth_slice"}[{sub}]: segyio -> {a[0]} {len(a[1]) if a[1] is not None else ""} items, seismic_zfp -> {b[0]} {len(b[1]) if b[1] is not None else ""} items (axis {il})')
+                elif a[0] == 'ok':
+                    for x, y in zip(a[2], b[2]):
+                        if not np.allclose(x, y, rtol=1e-3, atol=1e-3):
+                            probs.append(f'{"iline" if by_number else "depth_slice"}[{sub}]: items in a different order than segyio (axis {il})')
+                            break
+    except Exception as e:
+        probs.append(f'{type(e).__name__}: {e}')
+    finally:
+        shutil.rmtree(d, ignore_errors=True)
+    return {'reproduced': bool(probs), 'detail': probs[:6] or 'same structure as segyio', 'case': {'axis': il, 'subscripts': [str(x) for x in subs]}}
 
 
 def axis_from(model, name, n):
